@@ -1,5 +1,5 @@
 (** * C06 — All declared auxiliary electricity is counted once, for the right services *)
-From Cteepbd Require Import Model.Components Proofs.NormFacts.
+From Cteepbd Require Import Model.Components Proofs.NormFacts Proofs.DataEquiv Proofs.AuxWhole.
 Open Scope Qc_scope.
 
 (** a system serving one service: all its auxiliaries go to that service, values untouched *)
@@ -70,7 +70,42 @@ Proof.
   - vm_compute. reflexivity.
 Qed.
 
+(** end to end, through the whole normalisation (completion, the passes of all systems, the final sort): for every
+    system that declares auxiliary energy, the auxiliary components of the normalised list add up at each step to the
+    declared auxiliary energy of that system — except, for a system with several EPB services, at the steps where it
+    delivers no output energy, where they add up to zero (finding C06-zero-output-step, for every input) *)
+Theorem C06_normalized_aux_total : forall n data d, wf n data -> normalize_data data = Ok d ->
+  forall i t, In i (ids_of (filter is_aux data)) -> (t < n)%nat ->
+  sum_at (filter (is_aux_of i) d) t =
+  match used_services data i with
+  | [_] => sum_at (filter (is_aux_of i) data) t
+  | _ => if qltb 0 (q_tot data i t) then sum_at (filter (is_aux_of i) data) t else 0
+  end.
+Proof. exact normalize_aux_sum. Qed.
+
+Theorem C06_normalized_aux_conserved : forall n data d, wf n data -> normalize_data data = Ok d ->
+  forall i t, In i (ids_of (filter is_aux data)) -> (t < n)%nat ->
+  (exists s, used_services data i = [s]) \/ 0 < q_tot data i t ->
+  sum_at (filter (is_aux_of i) d) t = sum_at (filter (is_aux_of i) data) t.
+Proof.
+  intros n data d W H i t Hi Ht C. rewrite (normalize_aux_sum n data d W H i t Hi Ht). unfold aux_expected.
+  destruct C as [(s & ->)|P]; [reflexivity|].
+  destruct (qltb_spec 0 (q_tot data i t)); [|contradiction]. destruct (used_services data i) as [|s [|s' l]]; reflexivity.
+Qed.
+
+(** non-vacuity: the two-service system of C06_zero_output_refuted, normalised: 2 kWh at the step with output, 0 at the other *)
+Example C06_normalized_example :
+  let data := [EUsed 1 ELECTRICIDAD CAL [qz 10; qz 10] []; EUsed 1 ELECTRICIDAD ACS [qz 10; qz 10] [];
+               EOut 1 CAL [qz 5; 0] []; EOut 1 ACS [qz 5; 0] []; EAux 1 NEPB [qz 2; qz 2] []] in
+  wf 2 data /\ In 1%Z (ids_of (filter is_aux data)) /\
+  match normalize_data data with
+  | Ok d => sum_at (filter (is_aux_of 1) d) 0 = qz 2 /\ sum_at (filter (is_aux_of 1) d) 1 = 0
+  | Err _ => False end.
+Proof. cbv zeta. split; [repeat constructor|]. split; [vm_compute; now left|]. vm_compute. split; apply Qc_is_canon; reflexivity. Qed.
+
 Print Assumptions C06_single.
+Print Assumptions C06_normalized_aux_total.
+Print Assumptions C06_normalized_aux_conserved.
 Print Assumptions C06_single_values.
 Print Assumptions C06_shares.
 Print Assumptions C06_conserve.
